@@ -476,10 +476,15 @@ def transpile_all(srcs):
 # ------------------------------------------------------------------------------------------------
 # verdict of the model
 # ------------------------------------------------------------------------------------------------
-# Which threading of model/Scope.v is the model of the implementation: "as_is" = /repo as it is,
-# "restored" = /repo with repo_patches/c08_handle_restores.diff applied.  A constant on purpose: the
-# check never adapts to the implementation by itself.
-IMPL_MODE = "as_is"
+# Which threading of model/Scope.v is the model of the implementation: "restored" = /repo as it is (since the
+# repair c08_handle_restores: the caught set is put back after a handle, a function body starts from its own
+# declared raises), "as_is" = the rule set before that repair.  A constant on purpose: the check never adapts
+# to the implementation by itself.  Every run also evaluates the OTHER threading, so that
+#   - a return of the code to the other behaviour shows up as correspondence disagreements that the other
+#     mode explains (reported as such), and
+#   - a stream of cases that cannot tell the two apart is itself reported (C08 demands discriminating cases).
+IMPL_MODE = "restored"
+OTHER_MODE = {"restored": "as_is", "as_is": "restored"}[IMPL_MODE]
 
 
 def model_verdicts(cases):
@@ -754,7 +759,9 @@ class Spec:
             return D
         out = dict(D)
         for x in Ds[0]:
-            if all(x in d for d in Ds) and (x not in D or any(d[x] is not D[x] for d in Ds)):
+            # only names that were NOT visible before can flow out of the branches; a name that was visible
+            # keeps its own definition (a redefinition inside a branch shadows it there and nowhere else)
+            if x not in D and all(x in d for d in Ds):
                 out[x] = any(d[x] for d in Ds)
         return out
 
@@ -1180,12 +1187,13 @@ JUSTIFY = {   # error kind of the implementation -> spec issues that justify it
 
 
 class Rec:
-    __slots__ = ("p", "tb", "src", "impl", "msg", "model", "strict", "restored", "issues", "py", "status")
+    __slots__ = ("p", "tb", "src", "impl", "msg", "model", "strict", "restored", "other", "issues", "py", "status")
 
     def case_json(self):
         return {"program": self.p, "tables": {"ct": self.tb.ct, "mt": self.tb.mt, "fl": self.tb.fl},
                 "mamba": self.src, "implementation": self.impl, "message": self.msg,
-                "model": self.model, "model_repaired": self.strict,
+                "model": self.model, "model_mode": IMPL_MODE, "model_repaired": self.strict,
+                "model_" + OTHER_MODE: getattr(self, "other", None),
                 "spec_issues": [repr(i) for i in self.issues]}
 
 
@@ -1223,6 +1231,7 @@ def evaluate(cases, log=lambda m: None):
         r = Rec()
         mv = m_as_is if IMPL_MODE == "as_is" else m_restored
         r.p, r.tb, r.src, r.impl, r.msg, r.model, r.strict, r.restored = p, tb, src, iv, msg, mv, ms, m_restored
+        r.other = m_restored if IMPL_MODE == "as_is" else m_as_is
         r.issues = spec_issues(p, tb)
         r.py = None
         if iv == mv:
@@ -1298,7 +1307,7 @@ def load_replay(path):
     return [(tuplify(c["program"]), tables_from_json(c["tables"]))]
 
 
-def correspondence(ck, recs, where):
+def correspondence(ck, recs, where, need_discriminating=0):
     """Model verdict vs implementation verdict; unexplained differences break the tie."""
     import collections
     xc = getattr(evaluate, "extraction_check", None)
@@ -1317,9 +1326,23 @@ def correspondence(ck, recs, where):
         "verdict_pairs": {f"{a} / {b}": n for (a, b), n in sorted(pairs.items(), key=lambda x: -x[1])[:12]},
         "unifier_examples": [r.msg.split("\n")[0] for r in recs if r.status == "outside-unifier"][:3],
     }
+    discriminating = [r for r in recs if getattr(r, "other", r.model) != r.model]
+    explained = [r for r in bad if getattr(r, "other", None) == r.impl]
+    ck.cov["correspondence"]["model_mode"] = IMPL_MODE
+    ck.cov["correspondence"]["cases_that_tell_the_modes_apart"] = len(discriminating)
+    ck.cov["correspondence"]["disagreements_explained_by_mode_" + OTHER_MODE] = len(explained)
     if bad:
-        ck.broken.append({"kind": "correspondence", "where": where, "count": len(bad),
-                          "examples": [r.case_json() for r in bad[:3]]})
+        b = {"kind": "correspondence", "where": where, "count": len(bad),
+             "examples": [r.case_json() for r in bad[:3]]}
+        if explained and len(explained) * 2 >= len(bad):
+            b["diagnosis"] = (f"{len(explained)} of the {len(bad)} disagreements are exactly the verdicts of the threading "
+                              f"`{OTHER_MODE}`: the handle / function-body treatment of raises_caught in "
+                              f"control_flow.rs / definition.rs behaves like `{OTHER_MODE}` again, not like IMPL_MODE="
+                              f"`{IMPL_MODE}`")
+        ck.broken.append(b)
+    if need_discriminating and len(discriminating) < need_discriminating:
+        ck.broken.append({"kind": "generator", "where": "no case of this run distinguishes the threadings "
+                          f"`{IMPL_MODE}` and `{OTHER_MODE}`: the mode constant would not be tested"})
     if len(parse) > max(3, len(recs) // 100):
         ck.broken.append({"kind": "generator", "where": "rendered programs the parser refuses",
                           "count": len(parse), "examples": [r.case_json() for r in parse[:2]]})
@@ -1516,6 +1539,7 @@ def oracle_selftest():
     def rec(p, impl, msg=""):
         r = Rec()
         r.p, r.tb, r.src, r.impl, r.msg, r.model, r.strict, r.restored = p, tb, "", impl, msg, impl, impl, impl
+        r.other = impl
         r.issues = spec_issues(p, tb)
         return r
 
